@@ -368,6 +368,40 @@ def _explore(out, tier, seed, facts, replay):
                 pending.append(("expandverif:obs", "expandverif %s, variable obs" % " ".join(argv[3:]), imp, orc, rep, "tie:Scripts.expand_cell"))
                 if len(samples) < 3:
                     samples.append({k: rep[k] for k in ("script", "argv", "format", "times", "leads")})
+        # ---- files without observations (or without forecasts) are legal verif inputs: a script transforms what is there or
+        #      stops with a message, and expandverif needs -lt; none of them may end in an unhandled exception
+        fno = os.path.join(tmp, "noobs.txt")
+        with open(fno, "w") as f_:
+            f_.write("unixtime leadtime location lat lon altitude fcst e0 e1\n")
+            for t_ in range(2):
+                for l_ in (0, 6, 12):
+                    f_.write("%d %d 1 60 10 100 %g %g %g\n" % (1325376000 + 86400 * t_, l_, 1.0 + l_, 0.5 * l_, 2.0 + t_))
+        fnf = os.path.join(tmp, "nofcst.txt")
+        with open(fnf, "w") as f_:
+            f_.write("unixtime leadtime location lat lon altitude obs\n")
+            for t_ in range(2):
+                for l_ in (0, 6, 12):
+                    f_.write("%d %d 1 60 10 100 %g\n" % (1325376000 + 86400 * t_, l_, 1.0 + l_))
+        fo_ = os.path.join(tmp, "partial_out.nc")
+        for script_, argv_, must in (("accumulate", [fno, fo_], "ok"), ("accumulate", [fno, fo_, "-w", "2"], "ok"), ("accumulate", [fnf, fo_], "ok"),
+                                     ("ens2prob", [fno, fo_, "-r", "2", "-q", "0,1"], "ok"), ("ens2prob", [fno, fo_, "-p"], "ok-or-exit"),
+                                     ("expandverif", [fno, "-o", fo_, "-lt", "0,6"], "ok-or-exit"), ("expandverif", [fnf, "-o", fo_, "-i", "0"], "exit")):
+            if os.path.exists(fo_):
+                os.remove(fo_)
+            st, info = run_script(script_, argv_)
+            stats[script_] += 1
+            okay = st == "ok" if must == "ok" else (st in ("ok", "exit") if must == "ok-or-exit" else st == "exit")
+            if not okay:
+                out.violation("%s:partial-file:%s" % (script_, st), "%s %s on a file %s ends with %s %s (expected: %s)" % (
+                    script_, " ".join(os.path.basename(a_) for a_ in argv_), "without observations" if fno in argv_ else "without forecasts", st, info, must),
+                    {"script": script_, "argv": [os.path.basename(a_) for a_ in argv_], "file": open(argv_[0]).read()})
+            elif st == "ok" and script_ == "accumulate":
+                o_ = read_nc(fo_)
+                have = "fcst" if fno in argv_ else "obs"
+                lack = "obs" if have == "fcst" else "fcst"
+                if have not in o_ or (lack in o_ and not np.all(np.isnan(o_[lack]))):
+                    out.violation("accumulate:partial-file:fields", "accumulate %s: the output has %s; the input has only %s" % (" ".join(os.path.basename(a_) for a_ in argv_), sorted(k_ for k_ in o_ if k_ in ("obs", "fcst")), have),
+                                  {"script": script_, "argv": [os.path.basename(a_) for a_ in argv_], "file": open(argv_[0]).read()})
         # ---- accumulate on series of realistic length (scipy picks another convolution method for large arrays): a missing
         #      value makes exactly the windows that contain it missing, nothing else
         for big in range(2 if tier == "quick" else 6):
